@@ -110,7 +110,7 @@ def check(R, F, P, cfg):
     R.doc("R6.4", "set_finalized(false) (or with a non-constant argument) appears only in finalize_again")
     bad = []
     for (f, bb, ci) in P.call_sites(lambda cc_: cc_["npath"] == CM + "set_finalized"):
-        rf = P.fns[f.root] if f.kind == "closure" else f
+        rf = site_root(P, f)
         Sx = Super(P, rf, opaque=DO - {rf.npath})
         for n in [x for x in Sx.calls_to(CM + "set_finalized") if x.ctx.fn is f and x.bb == bb]:
             if Sx.args_of(n)[1] != ("const", 1) and rf.npath != "cc::Cc::<T>::finalize_again":
